@@ -19,7 +19,8 @@ EXPLANATION = (
     "inner_lookup_wildcard to *.parent must be guarded by a test that the intermediate name does not exist (RFC 4592 3.3.1 "
     "closest encloser) - absent today: known finding F6; (G5) InnerInMemory::find_cover, the source of every NSEC3 record the server "
     "offers as covering a hashed name, selects the greatest owner hash below the name and falls back to the greatest owner hash of "
-    "the chain (the only record whose interval wraps around).")
+    "the chain (the only record whose interval wraps around); (S1) sign_zone reaches sign_rrset for every RRset of the zone map before it "
+    "takes the next one (no RRset - e.g. the DS at a signed delegation - is skipped).")
 NOT_DECIDED = "Answer contents for all zones and queries; AA semantics on referrals; additional-section processing."
 ASSUMPTIONS = ["FULL feature configuration", "BTreeMap range/get semantics"]
 
